@@ -11,6 +11,7 @@ import (
 	"os"
 	"os/exec"
 	"path/filepath"
+	"regexp"
 	"sort"
 	"strconv"
 	"strings"
@@ -77,7 +78,8 @@ func globMatch(pat, s string) bool {
 	if pat == "" || pat == "*" {
 		return true
 	}
-	ok, _ := filepath.Match(pat, s)
+	re := "^" + strings.ReplaceAll(regexp.QuoteMeta(pat), "\\*", ".*") + "$"
+	ok, _ := regexp.MatchString(re, s)
 	return ok
 }
 
@@ -134,6 +136,7 @@ type checker struct {
 	tier            string
 	seed            int
 	env             []string
+	extra           map[string]string
 }
 
 func (c *checker) goEnv() []string {
@@ -142,7 +145,7 @@ func (c *checker) goEnv() []string {
 
 // buildReplayBinary compiles the native test binary of pkg with harnesses and verifrt overlaid.
 func (c *checker) buildReplayBinary(pkg string, sched bool) (string, error) {
-	ov := interp.RepoOverlay(c.repo, c.verif, nil)
+	ov := interp.RepoOverlay(c.repo, c.verif, c.extra)
 	testFile := filepath.Join(c.work, "zz_verif_replay_"+pkg+"_test.go")
 	os.WriteFile(testFile, []byte(fmt.Sprintf(replayTestTemplate, pkg)), 0o644)
 	ov[filepath.Join(c.repo, pkg, "zz_verif_replay_test.go")] = testFile
@@ -251,7 +254,20 @@ func cmdCheck(args []string) int {
 	if !*keep {
 		defer os.RemoveAll(work)
 	}
-	c := &checker{repo: *repo, verif: *verif, work: work, tier: *tier, seed: seed}
+	c := &checker{repo: *repo, verif: *verif, work: work, tier: *tier, seed: seed, extra: parseOverlay(*overlay)}
+	genFile, err := genModel(*repo, work, c.extra)
+	if err != nil {
+		fmt.Fprintln(os.Stderr, "generator:", err)
+		fmt.Printf("INCONCLUSIVE property=%s reason=generator-failed\n", prop)
+		return 2
+	}
+	c.extra[filepath.Join(*repo, "model", "zz_verif_gen_model.go")] = genFile
+	var ovParts []string
+	for k, v := range c.extra {
+		ovParts = append(ovParts, k+"="+v)
+	}
+	sort.Strings(ovParts)
+	*overlay = strings.Join(ovParts, ",")
 	self, _ := os.Executable()
 
 	// ---- plan jobs
@@ -756,7 +772,10 @@ func cmdReplay(args []string) int {
 	os.MkdirAll(filepath.Join(*verif, ".work"), 0o755)
 	work, _ := os.MkdirTemp(filepath.Join(*verif, ".work"), "replay-")
 	defer os.RemoveAll(work)
-	c := &checker{repo: *repo, verif: *verif, work: work}
+	c := &checker{repo: *repo, verif: *verif, work: work, extra: map[string]string{}}
+	if gf, err := genModel(*repo, work, c.extra); err == nil {
+		c.extra[filepath.Join(*repo, "model", "zz_verif_gen_model.go")] = gf
+	}
 	bin, err := c.buildReplayBinary(pkg, len(rec.Schedule) > 0)
 	if err != nil {
 		fmt.Fprintln(os.Stderr, err)
